@@ -126,11 +126,11 @@ CHECKS.update({
    text=('PARTIAL by nature: data races, goroutine scheduling and the absence of package-level mutable state are runtime / source facts that no executable model expresses; they are checked on every run by the harness built with -race '
          '(the same jobs - assemble text; build simulator, add shared warrior data, spawn, run - on 1..32 threads, every result compared with its sequential result and with the extracted model, GORACE=halt_on_error). '
          'What is proved: (1) copy isolation in a store model of Go slices (backing arrays by address; WarriorData.Copy allocates; addWarrior keeps only the copy): after AddWarrior no write through the caller\'s slice shows in what the simulator loads, and vice versa, '
-         'and earlier warriors are untouched; (2) the EQU cycle check always answers (its depth-first walk never exhausts its fuel) and gives the same answer for every order in which Go ranges over the map of names (permutation invariance, distinct names); (3) jobs whose steps write only their own state '
+         'and earlier warriors are untouched; (2) the EQU cycle check always answers (its depth-first walk never exhausts its fuel) and gives the same answer for every order in which Go ranges over the map of names (permutation invariance, distinct names), and the expansion of the EQU values (expandExpressions) returns the same table for every order - each name mapped to its fully substituted value, which is unique; (3) jobs whose steps write only their own state '
          'end, under every interleaving, where they end when run alone (instantiated to simulators stepping RunCycle); the literal models are functions, so repeating a job repeats its result. The store model is exercised by the harness case that mutates '
          'the caller\'s WarriorData after AddWarrior and compares the battle with the model\'s.'),
    design_ref='DESIGN.md 5 C14', note=NOTE_STD + ' The concurrency part of the property is decided by the race-detector harness, not by a theorem.',
-   technique='Coq proofs about a store model (alias freedom), permutation invariance of the cycle check, schedule independence of private-state jobs + per-run -race harness with sequential/concurrent result comparison'),
+   technique='Coq proofs about a store model (alias freedom), permutation invariance of the cycle check and of the EQU expansion, schedule independence of private-state jobs + per-run -race harness with sequential/concurrent result comparison'),
 })
 
 CHECKS.update({
